@@ -562,7 +562,7 @@ impl TypedArrayKind {
             TypedArrayKind::Uint32 => TypedArrayElement::Uint32(modulo(value, 32)),
             #[cfg(feature = "float16")]
             TypedArrayKind::Float16 => {
-                TypedArrayElement::Float16(Float16(float16::f16::from_f64(value)))
+                TypedArrayElement::Float16(Float16(crate::value::f64_to_f16(value)))
             }
             TypedArrayKind::Float32 => TypedArrayElement::Float32(value as f32),
             TypedArrayKind::Float64 => TypedArrayElement::Float64(value),
